@@ -126,3 +126,35 @@ Proof.
   apply andb_true_iff in G. destruct G as [_ G]. rewrite forallb_forall in G.
   intros i Hi Ha. specialize (G i Hi). apply negb_true_iff in G. apply memN_false in G. contradiction.
 Qed.
+
+Lemma incl_nil' {A} (l : list A) : incl l [] -> l = [].
+Proof. destruct l; [reflexivity|]. intros H. exfalso. apply (H a). left. reflexivity. Qed.
+
+(* C12 / C05: a completion that is forced (the completion check returns true although not every job is done) happens
+   only when no batch at all is queued or running - listed in the status or not - whatever faults came before *)
+Theorem forced_completion_only_when_nothing_active sc tr1 p tr2 s :
+  run sc (tr1 ++ ECheckComplete p true :: tr2) = Some s ->
+  exists s1 r, run sc tr1 = Some s1 /\ holder s1 = Some r /\
+    ((forall j, In j (all_jobs sc) -> r_st r j = DONE) \/ act_ids (hpc s1) = []).
+Proof.
+  intros H. unfold run in *. rewrite run_from_app in H. destruct (run_from sc init tr1) as [s1|] eqn:E1; [|discriminate].
+  assert (G : forall tr s0 s1, run_from sc s0 tr = Some s1 -> Inv1 sc s0 -> Inv3 sc s0 -> Inv3 sc s1).
+  { clear. induction tr as [|e t IH]; intros s0 s1 Hr I1 I3; cbn [run_from] in Hr.
+    - injection Hr as <-. exact I3.
+    - destruct (step sc s0 e) as [s2|] eqn:Es; [|discriminate]. eapply IH; eauto using inv1_step, inv3_step. }
+  pose proof (G _ _ _ E1 (inv1_init sc) (inv3_init sc)) as I3.
+  cbn [run_from] in H. destruct (step sc s1 (ECheckComplete p true)) as [s2|] eqn:Es; [|discriminate]. clear H.
+  unfold step in Es. cbv beta iota in Es. destruct (in_round s1 p) as [r|] eqn:Er; [|discriminate].
+  apply in_round_some in Er. destruct Er as (Eh & _). exists s1, r. split; [reflexivity|]. split; [exact Eh|].
+  match type of Es with (if ?c then _ else _) = _ => destruct c eqn:Gd; [|discriminate] end. clear Es.
+  rewrite !andb_true_iff in Gd. destruct Gd as (((G1 & G3) & G245) & _).
+  apply Bool.eqb_prop in G1. rewrite check_complete_spec in G1. symmetry in G1. apply orb_true_iff in G1.
+  destruct G1 as [G1|G1].
+  - left. rewrite forallb_forall in G1. intros j Hj. apply jstate_eqb_eq. apply G1. exact Hj.
+  - right. destruct (ids s1) as [|i0 il] eqn:Eids; [|discriminate].
+    assert (Hout : r_out r = []).
+    { apply skip_update_spec in G245. destruct G245 as [U|(_ & _ & Q)].
+      - apply incl_nil'. rewrite <- Eids. apply (k_out_ids sc s1 I3 r Eh). right. left. exact U.
+      - unfold eqsetN in Q. apply andb_true_iff in Q. destruct Q as [Q _]. destruct (r_out r); [reflexivity|discriminate]. }
+    apply incl_nil'. rewrite <- Hout. apply (k_active_owned sc s1 I3 r Eh G3).
+Qed.
